@@ -102,8 +102,13 @@ func Build(s *Setup, reqs []*Req, o BuildOpts) *World {
 		f.HandlerWrapper(func(h flamego.Handler) flamego.Handler { return h })
 	}
 	for i := 0; i < s.Befores; i++ {
-		f.Before(func(http.ResponseWriter, *http.Request) bool {
+		stop := s.BeforeStop && i == s.Befores-1
+		f.Before(func(_ http.ResponseWriter, r *http.Request) bool {
 			sched.Yield(SiteBeforeH)
+			if stop && r.Header.Get("X-Stop") != "" {
+				w.reqOf(r).Note("stopped-by-before-handler")
+				return true
+			}
 			return false
 		})
 	}
